@@ -543,7 +543,7 @@ double Find_Root(std::function<double(double)> func, double xLeft, double xRight
 		std::cerr << "Error in libphysica::Find_Root(): Function returns nan at the brackets." << std::endl;
 		std::exit(EXIT_FAILURE);
 	}
-	else if(fLeft * fRight >= 0.0)
+	else if(Sign(fLeft) * Sign(fRight) >= 0)   // (the product fLeft * fRight itself can underflow to zero)
 	{
 		if(fLeft == 0)
 			return xLeft;
@@ -570,8 +570,10 @@ double Find_Root(std::function<double(double)> func, double xLeft, double xRight
 			double x3 = (x1 + x2) / 2.0;
 
 			double f3 = func(x3);
-			// New point
-			double x4 = x3 + (x3 - x1) * Sign(f1 - f2) * f3 / sqrt(f3 * f3 - f1 * f2);
+			// New point. The update only depends on the ratios of the three function values, which are normalized such that their products can neither overflow nor underflow.
+			double f_scale = std::max({fabs(f1), fabs(f2), fabs(f3)});
+			double g1 = f1 / f_scale, g2 = f2 / f_scale, g3 = f3 / f_scale;
+			double x4 = x3 + (x3 - x1) * Sign(g1 - g2) * g3 / sqrt(g3 * g3 - g1 * g2);
 			// In exact arithmetic x4 lies inside the bracket; rounding can push it past an end.
 			x4 = std::max(std::min(x1, x2), std::min(x4, std::max(x1, x2)));
 			// Check if the estimate has settled (this alone does not locate the root: the iteration may be creeping).
